@@ -12,12 +12,17 @@
 (*           With DeepCopyGet = TRUE, Get allocates a copy: the repaired     *)
 (*           design, on which Pristine and Independence hold.                *)
 (*                                                                           *)
+(* file is the one JSON file of the session: Save writes a handle's table to  *)
+(* it (WriteCodonJSON), Load reads it into a fresh table (ReadCodonJSON);     *)
+(* what Load yields is what the LAST Save wrote, whatever was loaded or       *)
+(* re-weighted in between.  Roundtrip is serialise + parse in memory.         *)
+(*                                                                           *)
 (* Reweight replaces its receiver (h = h.OptimizeTable(s)), so no handle     *)
 (* ever denotes a stale receiver; t is the slot that receives a result.      *)
 EXTENDS CodonTables, Sequences, SequencesExt
 CONSTANTS Ids08, H, DeepCopyGet
-VARIABLES heap, hA, hI, touched
-svars == <<heap, hA, hI, touched>>
+VARIABLES heap, hA, hI, touched, file
+svars == <<heap, hA, hI, touched, file>>
 None == [live |-> FALSE]
 IdSeq == SetToSeq(Ids08)
 StoreAddr(i) == CHOOSE k \in 1..Len(IdSeq) : IdSeq[k] = i
@@ -26,12 +31,12 @@ Live(h) == hA[h].live
 
 SInit == /\ heap = [k \in 1..Len(IdSeq) |-> Ones]
          /\ hA = [h \in Handles |-> None] /\ hI = [h \in Handles |-> None]
-         /\ touched = {}
+         /\ touched = {} /\ file = [has |-> FALSE]
 
 (* a new process / restored defaults: used by trace validation between recorded histories *)
 SReset == /\ heap' = [k \in 1..Len(IdSeq) |-> Ones]
           /\ hA' = [h \in Handles |-> None] /\ hI' = [h \in Handles |-> None]
-          /\ touched' = {}
+          /\ touched' = {} /\ file' = [has |-> FALSE]
 
 Alloc(v) == Append(heap, v)
 NewAddr == Len(heap) + 1
@@ -41,19 +46,19 @@ GetA(i, t) ==
        THEN heap' = Alloc(heap[StoreAddr(i)]) /\ hA' = [hA EXCEPT ![t] = [live |-> TRUE, addr |-> NewAddr, code |-> i]]
        ELSE heap' = heap /\ hA' = [hA EXCEPT ![t] = [live |-> TRUE, addr |-> StoreAddr(i), code |-> i]]
     /\ hI' = [hI EXCEPT ![t] = [live |-> TRUE, v |-> Ones, tol |-> 0, code |-> i]]
-    /\ UNCHANGED touched
+    /\ UNCHANGED <<touched, file>>
 ReweightA(h, cnt) ==
     /\ Live(h)
     /\ heap' = [heap EXCEPT ![hA[h].addr] = cnt]
     /\ hI' = [hI EXCEPT ![h] = [live |-> TRUE, v |-> cnt, tol |-> 0, code |-> hI[h].code]]
     /\ touched' = touched \cup {hA[h].code}
-    /\ UNCHANGED hA
+    /\ UNCHANGED <<hA, file>>
 AddA(h1, h2, t) ==
     /\ Live(h1) /\ Live(h2) /\ hA[h1].code = hA[h2].code
     /\ heap' = Alloc(AddW(heap[hA[h1].addr], heap[hA[h2].addr]))
     /\ hA' = [hA EXCEPT ![t] = [live |-> TRUE, addr |-> NewAddr, code |-> hA[h1].code]]
     /\ hI' = [hI EXCEPT ![t] = [live |-> TRUE, v |-> AddW(hI[h1].v, hI[h2].v), tol |-> hI[h1].tol + hI[h2].tol, code |-> hI[h1].code]]
-    /\ UNCHANGED touched
+    /\ UNCHANGED <<touched, file>>
 (* operands that are inexact or partly unconstrained give an unconstrained result *)
 CompOf(id, a, b, tola, tolb, cut) == IF tola # 0 \/ tolb # 0 \/ HasWild(a) \/ HasWild(b) THEN AllWild ELSE CompW(id, a, b, cut)
 CompromiseA(h1, h2, cut, t) ==
@@ -62,13 +67,23 @@ CompromiseA(h1, h2, cut, t) ==
        /\ heap' = Alloc(CompOf(id, heap[hA[h1].addr], heap[hA[h2].addr], hI[h1].tol, hI[h2].tol, cut))
        /\ hA' = [hA EXCEPT ![t] = [live |-> TRUE, addr |-> NewAddr, code |-> id]]
        /\ hI' = [hI EXCEPT ![t] = [live |-> TRUE, v |-> CompOf(id, hI[h1].v, hI[h2].v, hI[h1].tol, hI[h2].tol, cut), tol |-> 1, code |-> id]]
-    /\ UNCHANGED touched
+    /\ UNCHANGED <<touched, file>>
 RoundtripA(h, t) ==
     /\ Live(h)
     /\ heap' = Alloc(heap[hA[h].addr])
     /\ hA' = [hA EXCEPT ![t] = [live |-> TRUE, addr |-> NewAddr, code |-> hA[h].code]]
     /\ hI' = [hI EXCEPT ![t] = hI[h]]
-    /\ UNCHANGED touched
+    /\ UNCHANGED <<touched, file>>
+SaveA(h) ==
+    /\ Live(h)
+    /\ file' = [has |-> TRUE, ab |-> heap[hA[h].addr], v |-> hI[h].v, tol |-> hI[h].tol, code |-> hA[h].code]
+    /\ UNCHANGED <<heap, hA, hI, touched>>
+LoadA(t) ==
+    /\ file.has
+    /\ heap' = Alloc(file.ab)
+    /\ hA' = [hA EXCEPT ![t] = [live |-> TRUE, addr |-> NewAddr, code |-> file.code]]
+    /\ hI' = [hI EXCEPT ![t] = [live |-> TRUE, v |-> file.v, tol |-> file.tol, code |-> file.code]]
+    /\ UNCHANGED <<touched, file>>
 (* concurrent re-weighting of default tables with pairwise different ids: the *)
 (* design-level interleaving model is C08_Conc; at session level its outcome  *)
 (* is the parallel composition of the individual Reweights                    *)
@@ -76,7 +91,7 @@ ConcReweightA(ids, cnts) ==      \* ids: sequence of distinct ids, cnts: sequenc
     /\ heap' = [k \in 1..Len(heap) |-> IF \E j \in 1..Len(ids) : StoreAddr(ids[j]) = k /\ ~DeepCopyGet
                                        THEN cnts[CHOOSE j \in 1..Len(ids) : StoreAddr(ids[j]) = k] ELSE heap[k]]
     /\ touched' = touched \cup {ids[j] : j \in 1..Len(ids)}
-    /\ UNCHANGED <<hA, hI>>
+    /\ UNCHANGED <<hA, hI, file>>
 
 (* ---- properties ---- *)
 (* holds on the as-built machine: an operation on a table of one id never changes the default table of another id *)
